@@ -101,6 +101,13 @@ func (lr *listRun) one(ls *listStats, keyState string, key []byte, offset, limit
 		obs = fmt.Sprintf("(Some ([%s], %s, %d))", strings.Join(ks, "; "), nk, total)
 	} else {
 		ls.errors++
+		// a list query that panics, or that fails on a first page (no continuation key: nothing about the request can be
+		// wrong), does not answer at all: the listing is not complete
+		if !good {
+			ls.failures = append(ls.failures, monFailure{Property: "C20", What: fmt.Sprintf("%s panicked on the request {offset %d, limit %d, count %v, reverse %v, key %x} over %d stored items", lr.name, offset, limit, count, reverse, key, len(lr.items))})
+		} else if len(key) == 0 {
+			ls.failures = append(ls.failures, monFailure{Property: "C20", What: fmt.Sprintf("%s failed on the request {offset %d, limit %d, count %v, reverse %v} over %d stored items: %v", lr.name, offset, limit, count, reverse, len(lr.items), err)})
+		}
 	}
 	*out = append(*out, fmt.Sprintf("PPage %s %s %s", lr.coqItems(), coqPageReq(keyState, offset, limit, count, reverse), obs)+"%N")
 	ls.cases++
